@@ -165,74 +165,100 @@ where
     });
     let _ = std::fs::create_dir_all(&dir);
     let mut accs = vec![];
-    let mut round = 0;
-    // a worker that dies only loses the item it was working on: results are written per item and
-    // the other workers keep taking items; if every worker died, a new batch is forked
-    while cells[0].load(Ordering::SeqCst) < n && round < 64 {
-        let mut kids = vec![];
-        for w in 0..workers {
-            let path = format!("{dir}/r{round}-w{w}.jsonl");
-            cells[1 + w].store(0, Ordering::SeqCst);
-            let pid = unsafe { sys::fork() };
-            assert!(pid >= 0, "fork failed");
-            if pid == 0 {
-                // child
-                rec::install_hook_observer();
-                let mut out = std::fs::File::create(&path).expect("create worker file");
-                loop {
-                    let i = cells[0].fetch_add(1, Ordering::SeqCst);
-                    if i >= n {
-                        break;
-                    }
-                    cells[1 + w].store(i + 1, Ordering::SeqCst);
-                    let mut acc = Acc::default();
-                    let r = std::panic::catch_unwind(std::panic::AssertUnwindSafe(|| f(i, &mut acc)));
-                    if r.is_err() {
-                        acc.notes.push(format!("harness panicked on item {i}"));
-                        acc.add("harness_errors", 1);
-                    }
-                    let mut line = serde_json::to_string(&acc.to_json()).unwrap();
-                    line.push('\n');
-                    let _ = out.write_all(line.as_bytes());
-                    let _ = out.flush();
-                    cells[1 + w].store(0, Ordering::SeqCst);
+    // A worker that dies only loses the item it was working on: results are written per item. A
+    // worker that ends (retired because it grew large, or dead) is replaced while items remain.
+    let mut live: Vec<(i32, usize, String)> = vec![]; // (pid, slot, result file)
+    let mut spawned = 0usize;
+    let max_spawn = workers * 64 + n;
+    let spawn = |slot: usize, serial: usize| -> (i32, usize, String) {
+        let path = format!("{dir}/w{slot}-{serial}.jsonl");
+        cells[1 + slot].store(0, Ordering::SeqCst);
+        let pid = unsafe { sys::fork() };
+        assert!(pid >= 0, "fork failed");
+        if pid == 0 {
+            // child
+            rec::install_hook_observer();
+            let mut out = std::fs::File::create(&path).expect("create worker file");
+            loop {
+                let i = cells[0].fetch_add(1, Ordering::SeqCst);
+                if i >= n {
+                    break;
                 }
-                drop(out);
-                unsafe { sys::_exit(0) };
-            }
-            kids.push((pid, w, path));
-        }
-        for (pid, w, path) in kids {
-            let mut status = 0i32;
-            unsafe { sys::waitpid(pid, &mut status, 0) };
-            let mut buf = String::new();
-            if let Ok(mut fh) = std::fs::File::open(&path) {
-                let _ = fh.read_to_string(&mut buf);
-            }
-            for line in buf.lines() {
-                if let Ok(v) = serde_json::from_str::<Value>(line) {
-                    accs.push(Acc::from_json(&v));
+                cells[1 + slot].store(i + 1, Ordering::SeqCst);
+                let mut acc = Acc::default();
+                let r = std::panic::catch_unwind(std::panic::AssertUnwindSafe(|| f(i, &mut acc)));
+                if r.is_err() {
+                    acc.notes.push(format!("harness panicked on item {i}"));
+                    acc.add("harness_errors", 1);
+                }
+                let mut line = serde_json::to_string(&acc.to_json()).unwrap();
+                line.push('\n');
+                let _ = out.write_all(line.as_bytes());
+                let _ = out.flush();
+                cells[1 + slot].store(0, Ordering::SeqCst);
+                // Shuttle deliberately leaks the stack contents of a failing execution, and the
+                // explorers run millions of those: retire a worker that has grown large
+                if rss_mb() > 2_500 {
+                    break;
                 }
             }
-            if status != 0 {
-                let mut a = Acc::default();
-                let item = cells[1 + w].load(Ordering::SeqCst);
-                a.add("worker_deaths", 1);
-                a.violation(
-                    "process-died",
-                    format!(
-                        "worker process ended abnormally (wait status {status:#x}) while checking item {}",
-                        if item > 0 { (item - 1).to_string() } else { "<none>".into() }
-                    ),
-                    json!({"item": item.saturating_sub(1), "status": status}),
-                );
-                accs.push(a);
+            drop(out);
+            unsafe { sys::_exit(0) };
+        }
+        (pid, slot, path)
+    };
+    for w in 0..workers {
+        live.push(spawn(w, spawned));
+        spawned += 1;
+    }
+    while !live.is_empty() {
+        let mut status = 0i32;
+        let pid = unsafe { sys::waitpid(-1, &mut status, 0) };
+        let Some(pos) = live.iter().position(|k| k.0 == pid) else {
+            if pid < 0 {
+                break;
+            }
+            continue; // some other child of this process (e.g. a sanitizer run)
+        };
+        let (_, slot, path) = live.remove(pos);
+        let mut buf = String::new();
+        if let Ok(mut fh) = std::fs::File::open(&path) {
+            let _ = fh.read_to_string(&mut buf);
+        }
+        for line in buf.lines() {
+            if let Ok(v) = serde_json::from_str::<Value>(line) {
+                accs.push(Acc::from_json(&v));
             }
         }
-        round += 1;
+        if status != 0 {
+            let mut a = Acc::default();
+            let item = cells[1 + slot].load(Ordering::SeqCst);
+            a.add("worker_deaths", 1);
+            a.violation(
+                "process-died",
+                format!(
+                    "worker process ended abnormally (wait status {status:#x}) while checking item {}",
+                    if item > 0 { (item - 1).to_string() } else { "<none>".into() }
+                ),
+                json!({"item": item.saturating_sub(1), "status": status}),
+            );
+            accs.push(a);
+        }
+        if cells[0].load(Ordering::SeqCst) < n && spawned < max_spawn {
+            live.push(spawn(slot, spawned));
+            spawned += 1;
+        }
     }
     let _ = std::fs::remove_dir_all(&dir);
     accs
+}
+
+fn rss_mb() -> usize {
+    std::fs::read_to_string("/proc/self/statm")
+        .ok()
+        .and_then(|s| s.split_whitespace().nth(1).and_then(|x| x.parse::<usize>().ok()))
+        .map(|pages| pages * 4096 / (1 << 20))
+        .unwrap_or(0)
 }
 
 pub fn workers() -> usize {
